@@ -100,7 +100,7 @@ def obs_trace(tr, tid):
 # ---------------------------------------------------------------------------------------------
 def run_tlc(module, cfg, env=None, workers=1, extra=(), timeout=3600, cwd=SPEC, metadir=None, heap='2g'):
     md = metadir or workdir('meta')
-    cmd = ['java', '-XX:+UseParallelGC', '-Xmx' + heap, '-cp', JAVA_CP, 'tlc2.TLC', '-workers', str(workers), '-metadir', md,
+    cmd = ['java', '-XX:+UseParallelGC', '-Xss64m', '-Xmx' + heap, '-cp', JAVA_CP, 'tlc2.TLC', '-workers', str(workers), '-metadir', md,
            '-noGenerateSpecTE', '-config', cfg, *extra, module]
     e = dict(os.environ)
     if env:
